@@ -65,15 +65,96 @@ theorem parse87_absent (tag' : Nat) (e val rest : Bytes) (hE : derEnc tag' val =
   unfold parse87
   rw [derDec2_other 0x87 tag' e val rest hE htag hne hlen]
 
-/-- the 0x8E field (stated on the literal octets `8E 08`: a ground `tl 0x8E 8` must never be reduced by
-`whnf`, the tag validity check behind it is a well-founded recursion) -/
+/-- parse8E in terms of derDec, for an ARBITRARY buffer (never unfold the parsers on a buffer whose first octets
+are literals: `whnf` would then run the well-founded tag/length loops of the C08 model) -/
+theorem parse8E_of_derDec (x : Bytes) (off c : Nat) (h : derDec x = .ok (0x8E, off, 8, c)) : parse8E x = .ok (off, c) := by
+  unfold parse8E derDec3
+  rw [h]
+  simp
+
+/-- the 0x8E field written by the wrappers -/
 theorem parse8E_present (mac rest : Bytes) (hm : mac.length = 8) (hlen : 40 + rest.length < W) :
     parse8E ([0x8E, 8] ++ mac ++ rest) = .ok (2, 10) := by
   have hE : derEnc 0x8E mac = .ok ([0x8E, 8] ++ mac) := by rw [derEnc_8E, hm, tl_8E_8]
   have hl : 13 + mac.length + rest.length < W := by rw [hm]; omega
   obtain ⟨hd, _⟩ := derDec_field 0x8E _ mac rest hE (lt_U32_of_lt_256 (by omega)) hl
-  unfold parse8E derDec3
-  rw [hd]
-  simp [hm]
+  have hl1 : ([0x8E, 8] ++ mac).length = 10 := by simp [hm]
+  rw [hl1, hm] at hd
+  exact parse8E_of_derDec _ _ _ hd
+
+/-- parse97 in terms of derDec for an arbitrary buffer -/
+theorem parse97_of_derDec (x : Bytes) (n off l c : Nat) (h : derDec x = .ok (0x97, off, l, c)) :
+    parse97 x n =
+      match (x.drop off).take l with
+      | [v0] =>
+        let r := if v0.toNat = 0 then 256 else v0.toNat
+        if n ≥ 256 then .error .badApdu else .ok (c, r)
+      | [v0, v1] =>
+        let r := if v0.toNat * 256 + v1.toNat = 0 then 65536 else v0.toNat * 256 + v1.toNat
+        if (n < 256 ∧ r ≤ 256) ∨ n = 0 then .error .badApdu else .ok (c, r)
+      | [v0, v1, v2] =>
+        let r := if v1.toNat * 256 + v2.toNat = 0 then 65536 else v1.toNat * 256 + v2.toNat
+        if v0 ≠ 0 ∨ n ≠ 0 ∨ r ≤ 256 then .error .badApdu else .ok (c, r)
+      | _ => .error .badApdu := by
+  unfold parse97 derDec2
+  rw [h]
+  simp only [ne_eq, not_true_eq_false, if_false]
+  rfl
+
+theorem parse97_absent (tag' : Nat) (e val rest : Bytes) (n : Nat) (hE : derEnc tag' val = .ok e) (htag : tag' < U32)
+    (hne : tag' ≠ 0x97) (hlen : 13 + val.length + rest.length < W) : parse97 (e ++ rest) n = .ok (0, 0) := by
+  unfold parse97
+  rw [derDec2_other 0x97 tag' e val rest hE htag hne hlen]
+
+theorem oct_toNat' (v : Nat) : (oct v).toNat = v % 256 := by
+  simp [oct, Bee2V.C08.oct, UInt8.toNat_ofNat']
+
+/-- the 0x97 field written by btokSMCmdWrap, for each of the three forms of Le -/
+theorem parse97_present (n rdf : Nat) (rest : Bytes) (hr : rdf ≠ 0) (hrdf : rdf ≤ 65536) (hlen : 40 + rest.length < W) :
+    let l := if n < 256 ∧ rdf ≤ 256 then 1 else if n ≠ 0 then 2 else 3
+    parse97 (tl 0x97 l ++ leVal rdf l ++ rest) n = .ok (2 + l, rdf) := by
+  intro l
+  have hl : l = 1 ∨ l = 2 ∨ l = 3 := by
+    simp only [l]; by_cases h1 : n < 256 ∧ rdf ≤ 256 <;> by_cases h2 : n ≠ 0 <;> simp [h1, h2]
+  have hvl : (leVal rdf l).length = l := by
+    rcases hl with h | h | h <;> simp [leVal, h]
+  have htl : tl 0x97 l = [0x97, oct l] := by
+    rw [tl_97]; simp only [derLEnc]
+    have : l < 128 := by omega
+    simp [this]
+  have hE : derEnc 0x97 (leVal rdf l) = .ok (tl 0x97 l ++ leVal rdf l) := by rw [derEnc_97, hvl]
+  obtain ⟨hd, hs⟩ := derDec_field 0x97 _ (leVal rdf l) rest hE (lt_U32_of_lt_256 (by omega)) (by rw [hvl]; omega)
+  have hlen2 : (tl 0x97 l ++ leVal rdf l).length = 2 + l := by rw [htl]; simp [hvl]; omega
+  rw [hlen2, hvl] at hd hs
+  rw [parse97_of_derDec _ n _ _ _ hd, hs]
+  by_cases c1 : n < 256 ∧ rdf ≤ 256
+  · have h : l = 1 := by simp [l, c1]
+    simp only [h, leVal, if_true, oct_toNat']
+    have : ¬ n ≥ 256 := by omega
+    simp only [this, if_false]
+    congr 2
+    split <;> omega
+  · by_cases c2 : n ≠ 0
+    · have h : l = 2 := by simp [l, c1, c2]
+      have e2 : leVal rdf 2 = [oct (rdf / 256), oct rdf] := by simp [leVal]
+      simp only [h, e2, oct_toNat']
+      by_cases h65 : rdf = 65536
+      · subst h65
+        have : ¬ ((n < 256 ∧ 65536 ≤ 256) ∨ n = 0) := by omega
+        simp [this]
+        exact c2
+      · have hne : rdf / 256 % 256 * 256 + rdf % 256 = rdf := by omega
+        have : ¬ ((n < 256 ∧ rdf ≤ 256) ∨ n = 0) := by omega
+        simp only [hne, hr, if_false, this]
+    · have h : l = 3 := by simp [l, c1, c2]
+      have hn0 : n = 0 := by simpa using c2
+      have e3 : leVal rdf 3 = [0, oct (rdf / 256), oct rdf] := by simp [leVal]
+      simp only [h, e3, oct_toNat']
+      have hgt : 256 < rdf := by omega
+      by_cases h65 : rdf = 65536
+      · subst h65; simp [hn0]
+      · have hne : rdf / 256 % 256 * 256 + rdf % 256 = rdf := by omega
+        have : ¬ ((0 : UInt8) ≠ 0 ∨ n ≠ 0 ∨ rdf ≤ 256) := by simp [hn0]; omega
+        simp only [hne, hr, if_false, this]
 
 end Bee2V.C17
